@@ -257,3 +257,30 @@ def run(ctx):
 
     from rules.C01 import varint_rule
     varint_rule(ctx, prog)
+
+    # ---- ENDIAN-CPU
+    ctx.rule('ENDIAN-CPU', 'SF_ENDIAN_CPU means the byte order of the configured CPU: for every function that resolves it (mentions SF_ENDIAN_CPU), partial evaluation in write mode with the format\'s endian '
+             'bits = SF_ENDIAN_CPU stores no byte-order constant that the same function does not also store when the CPU order is requested explicitly (the file must describe, and use, host order)', floor=8)
+    MAJOR = {'au.c': 'SF_FORMAT_AU', 'aiff.c': 'SF_FORMAT_AIFF', 'wav.c': 'SF_FORMAT_WAV', 'raw.c': 'SF_FORMAT_RAW', 'caf.c': 'SF_FORMAT_CAF', 'paf.c': 'SF_FORMAT_PAF', 'dwd.c': 'SF_FORMAT_DWD',
+             'ircam.c': 'SF_FORMAT_IRCAM', 'mat4.c': 'SF_FORMAT_MAT4', 'mat5.c': 'SF_FORMAT_MAT5', 'nist.c': 'SF_FORMAT_NIST', 'svx.c': 'SF_FORMAT_SVX'}
+    host = 'SF_ENDIAN_BIG' if prog.info.get('big_endian') else 'SF_ENDIAN_LITTLE'
+    nec = 0
+    for f in sorted(prog.lib_fns(), key=lambda f: (f.file, f.line)):
+        base = f.file.split('/')[-1]
+        if base not in MAJOR or MAJOR[base] not in E:
+            continue
+        if not any(n['k'] == 'DeclRefExpr' and n.get('n') == 'SF_ENDIAN_CPU' for n in f.walk()):
+            continue
+        sets = {}
+        for en in ('SF_ENDIAN_CPU', host):
+            pe3 = PEval(prog, sticky=('sf.format', 'file.mode', 'endian'), effects=eff, max_depth=0)
+            env = {'psf->sf.format': E[MAJOR[base]] | E['SF_FORMAT_PCM_16'] | E[en], 'psf->file.mode': E['SFM_WRITE']}
+            r = pe3.explore(f, env)
+            sets[en] = {x[2] for x in r.store_exprs if x[0] == f.name and x[1] == 'psf->endian' and x[2].startswith('SF_ENDIAN_')} | \
+                       {x[2] for x in r.local_assigns if x[0] == f.name and x[1] == 'endian' and x[2].startswith('SF_ENDIAN_')}
+        nec += 1
+        extra = sets['SF_ENDIAN_CPU'] - sets[host] - {host}
+        ctx.ob('ENDIAN-CPU', f.name, not extra, f.loc(f.body), 'requested SF_ENDIAN_CPU: byte-order constants stored %s; requested %s explicitly: %s%s' % (
+            sorted(sets['SF_ENDIAN_CPU']), host, sorted(sets[host]), '' if not extra else ' — SF_ENDIAN_CPU resolves to %s on a %s CPU' % (sorted(extra), 'big-endian' if host.endswith('BIG') else 'little-endian')), None)
+    ctx.require(nec >= 8, 'only %d functions resolving SF_ENDIAN_CPU found' % nec)
+
